@@ -327,7 +327,11 @@ def run(tier: str) -> int:
             raise MachineryFailure('pinned-design cfg no longer violates PaybackInCrossingYear (vacuity guard)')
         res.cov['pinned_design_counterexample'] = [s['vars'] for s in rp['trace'][-1:]]
     replay_m2(res, tier)
-    out = sim.run_many(build_jobs(tier) + crossing_jobs(tier), 'harness.c04:project', keep_report=True)
+    jobs_ = build_jobs(tier) + crossing_jobs(tier)
+    # each of a seeded choice of the jobs once more, followed in the same process by neighbours that restate ONE of its figures
+    chains = sim.neighbour_chains(jobs_, 10 if tier == 'quick' else 60, 3, seed() * 101 + 4,
+                                  prefer=('Construction Years', 'Plant Lifetime', 'Discount Rate', 'Fixed Internal Rate', 'Inflation Rate', 'Starting Electricity Sale Price', 'Starting Heat Sale Price'))
+    out = sim.run_many(jobs_, 'harness.c04:project', keep_report=True) + sim.run_chains(chains, 'harness.c04:project', keep_report=True)
     counts = validate(res, out)
     # how many traces cross in their very last / first operating year (the boundary states M1 visits)
     res.cov['traces_crossing_in_last_year'] = sum(1 for o in out if o.get('c04') and _cross_year(o['c04']) == o['c04']['L'] + o['c04']['Cy'] - 1)
